@@ -156,3 +156,16 @@ PROPS["C19"] = {
             "logins, SSO by redirect and by POST with credentials, IdP-initiated launches, session get/delete, clock advances past the session lifetime, restarts at random positions) with I/O-error and not-found faults "
             "injected into individual store calls; every reply (status, kind, user/profile/entity/relay of an issued assertion, session cookie) compared with the model's",
 }
+
+PROPS["C20"] = {
+    "modules": ["SamlVerif.Props.C20"],
+    "race_stress": True,
+    "trusted_base": ["the lock-program extractor (go/ast over samlidp; conditionals are flattened, calls inside the package and the IdentityProvider callbacks are inlined); "
+                     "validated dynamically: what each real handler does to the store must be a subsequence of its extracted program",
+                     "modelled, not verified: the Go memory model and scheduler (interleaving at event granularity; RLock is blocked by a waiting writer); races on state other than "
+                     "MemoryStore.data and Server.serviceProviders are only sampled by the -race stress run"],
+    "assumptions": ["fair scheduling for 'every request completes'"],
+    "rule": "19 handler invocations against a recording store (subsequence check against the extracted programs); the model's deadlock witness replayed on the real server with a scheduling store (3 trials); "
+            "40 (thorough: 600) recorded concurrent histories of 2-4 clients x 6 store operations checked with porcupine against the key-value specification; 4 goroutines x all handlers free-running stress, "
+            "repeated under the race detector",
+}
